@@ -18,6 +18,7 @@ import (
 
 	"github.com/oauth2-proxy/oauth2-proxy/v7/pkg/apis/options"
 	sessionsapi "github.com/oauth2-proxy/oauth2-proxy/v7/pkg/apis/sessions"
+	"github.com/spf13/pflag"
 )
 
 func init() {
@@ -571,8 +572,75 @@ func vC05GenericPKCE(t *testing.T, out *vEmitter) {
 	}
 }
 
+// vC05AlphaConfig: the provider given through the structured (alpha) YAML file, loaded by main's own
+// loadConfiguration.  A key the file leaves out has the structured option's zero value, not the default of the
+// legacy flag of the same meaning: nonce checking is on unless insecureSkipNonce: true is written.
+func vC05AlphaConfig(t *testing.T, out *vEmitter) {
+	core := "cookie_secret=\"OQINaROshtE9TcZkNAm-5Zs2Pv3xaWytBmc5W7sPX7w=\"\nemail_domains=\"*\"\ncookie_secure=\"false\"\n"
+	for _, spelled := range []string{"omitted", "false", "true"} {
+		for _, ccm := range []string{"", "S256"} {
+			line := ""
+			if spelled != "omitted" {
+				line = "    insecureSkipNonce: " + spelled + "\n"
+			}
+			ccmLine := ""
+			if ccm != "" {
+				ccmLine = "  code_challenge_method: " + ccm + "\n"
+			}
+			alpha := "upstreamConfig:\n  upstreams:\n  - id: static\n    path: /\n    static: true\nserver:\n  bindAddress: \"127.0.0.1:4180\"\nproviders:\n" +
+				"- provider: oidc\n  id: oidc=verif\n  clientID: " + clientID + "\n  clientSecret: " + clientSecret + "\n" +
+				"  loginURL: " + vIssuer + "/authorize\n  redeemURL: " + vIssuer + "/token\n" + ccmLine +
+				"  oidcConfig:\n    issuerURL: " + vIssuer + "\n    skipDiscovery: true\n    jwksURL: " + vIssuer + "/jwks\n    emailClaim: email\n    groupsClaim: groups\n    userIDClaim: email\n    audienceClaims: [aud]\n" + line
+			cf, af := vWriteFile("c05-core-"+spelled+ccm+".toml", core), vWriteFile("c05-alpha-"+spelled+ccm+".yaml", alpha)
+			loaded, err := loadConfiguration(cf, af, pflag.NewFlagSet("verif", pflag.ContinueOnError), nil)
+			if err != nil {
+				t.Fatalf("alpha configuration does not load: %v", err)
+			}
+			e := vTryNewEnv(t, vEnvCfg{mod: func(o *options.Options) {
+				o.Providers = loaded.Providers
+			}})
+			if e == nil {
+				t.Fatalf("alpha configuration (%s) does not validate", spelled)
+			}
+			wantCheck := spelled != "true"
+			for _, claim := range []string{"own", "absent", "other"} {
+				b := e.newBrowser("https://app.example.com")
+				l := b.start("/x")
+				extra := map[string]interface{}{}
+				switch claim {
+				case "own":
+					if l.Nonce != "" {
+						extra["nonce"] = l.Nonce
+					}
+				case "other":
+					extra["nonce"] = "some-other-logins-hashed-nonce"
+				}
+				e.idp.onToken = func(url.Values) (int, string, string, error) {
+					return 200, "application/json", vTokenJSON(vJWT(vKeyRSA, "RS256", vClaims("user@example.com", extra)), "at", "rt", 3600), nil
+				}
+				cb := b.callback(l.State, "code")
+				issued := e.sessionCookieSet(cb)
+				out.Obs("alpha-config-nonce", true, vL(vS(spelled), vS(ccm), vS(claim), vBool(l.Nonce != ""), vBool(issued)))
+				out.Stat("c05_alpha_logins", 1)
+				det := map[string]interface{}{"insecureSkipNonce_in_yaml": spelled, "code_challenge_method": ccm, "id_token_nonce": claim, "nonce_sent": l.Nonce != "", "session": issued,
+					"loaded_value": loaded.Providers[0].OIDCConfig.InsecureSkipNonce}
+				if wantCheck && l.Nonce == "" {
+					out.Violation("pkce-nonce/nonce-missing-or-repeated", "the authorization request carries no nonce, or two logins share one", det)
+				}
+				if wantCheck && claim != "own" && issued {
+					out.Violation("pkce-nonce/session-with-wrong-nonce", "a session was issued although the ID token does not carry this login's hashed nonce", det)
+				}
+				if claim == "own" && !issued {
+					out.Violation("pkce-nonce/own-login-failed", "a login carrying its own state and CSRF cookie did not complete", det)
+				}
+			}
+		}
+	}
+}
+
 func driveC05(t *testing.T, out *vEmitter) {
 	vKeys()
+	defer vC05AlphaConfig(t, out)
 	defer vC05GenericPKCE(t, out)
 	vC05Legacy(t, out)
 	vC05Discovery(t, out)
